@@ -71,6 +71,11 @@ fn dispatch<P: Property>(cli: &Cli) -> i32 {
 }
 
 fn main() {
+    if std::env::args().nth(1).as_deref() == Some("FUZZSEEDS") {
+        let dir = std::env::args().nth(2).unwrap_or_else(|| usage());
+        vharness::fuzzdec::write_seeds(std::path::Path::new(&dir));
+        return;
+    }
     let cli = parse();
     let code = match cli.prop.as_str() {
         "C01" => dispatch::<props::c01::C01>(&cli),
